@@ -296,9 +296,9 @@ fn run_case(template: &Machine, init: &Init, n: usize, irq_seed: Option<u64>, re
 pub fn run(ctx: &Ctx) -> Report {
     let template = real::blank_machine();
     let sz = Sizes {
-        two_byte_samples: ctx.size(300, 5000) as usize,
-        misc_samples: ctx.size(500, 20_000) as usize,
-        seq_programs: ctx.size(40_000, 3_000_000) as usize,
+        two_byte_samples: ctx.size(600, 5000) as usize,
+        misc_samples: ctx.size(1500, 20_000) as usize,
+        seq_programs: ctx.size(120_000, 3_000_000) as usize,
         alu_stride: if ctx.quick() { 16 } else { 1 },
     };
     let total = c01::n_items(&sz);
